@@ -48,6 +48,8 @@ package based
 //@   observe rwh := call RetrieveWithHelpers
 //@   observe push := call Push
 //@   observe put := call Put
+//@   observe ju := call Unmarshal
+//@   observe get := call Get
 //@   modifies durable s.store.kv, durable s.store.kvHas, durable s.store.size, durable s.pendingTxs.store.kv, durable s.pendingTxs.store.kvHas, durable s.pendingTxs.store.size, s.pendingTxs.list, heap "[]based.TxsWithTimestamp.Txs", heap "[]based.TxsWithTimestamp.IDs", heap "[]based.TxsWithTimestamp.Timestamp"
 //@   ensures [bound] resp != nil && resp.Batch != nil ==> sumLen(resp.Batch.Transactions, len(resp.Batch.Transactions)) <= ite(req.MaxBytes != 0, req.MaxBytes, 1500000)
 //@   ensures [count] resp != nil && resp.Batch != nil ==> len(resp.Batch.Transactions) == len(resp.BatchData)
@@ -56,6 +58,13 @@ package based
 //@   ensures [no-overtake] pop && len(pop.arg0.list) > 0 ==> rwh.count == 0
 //@   loop 1 invariant [size] size <= maxBytes && resp != nil && resp.Batch != nil && len(resp.Batch.Transactions) == len(resp.BatchData)
 //@                       && size == sumLen(resp.Batch.Transactions, len(resp.Batch.Transactions)) && push.count == 0
+// where the scan resumes: never before the stored scan position (what lies before it was fetched
+// already and is either released or waiting in the carry-over queue) and never before the start height
+//@   ensures [reads-stored-scan] ju ==> ju.count == 1 && get.count == 1 && get.res1 == nil && ju.arg0 == get.res0 && get.arg2.string == dskey("/sequencer/lastScannedDAHeight")
+// (a last batch at the largest possible DA height makes the counter wrap; nothing is claimed then)
+//@   loop 1 invariant [scan-resumes-at-or-after-stored] rwh.count == 0 && ju.count == 1 && ju.res0 == nil ==> nextDAHeight >= jsonInt(ju.arg0val) || lastDAHeight == 18446744073709551615
+//@   loop 1 invariant [scan-not-before-start] rwh.count == 0 ==> nextDAHeight >= s.daStartHeight || lastDAHeight == 18446744073709551615
+//@   loop 1 invariant [fetches-next] rwh.count <= 1 && (rwh.count == 1 ==> rwh.arg3 == iter(nextDAHeight))
 //@   loop 1 invariant [no-skip-future] rwh.count == 1 && rwh.res0.Code == coreda.StatusHeightFromFuture ==> nextDAHeight == iter(nextDAHeight)
 //@   loop 1 invariant [retry-on-error] rwh.count == 1 && rwh.res0.Code == coreda.StatusError ==> nextDAHeight == iter(nextDAHeight)
 //@   loop 2 invariant [size] size <= maxBytes && resp != nil && resp.Batch != nil && len(resp.Batch.Transactions) == len(resp.BatchData)
